@@ -188,6 +188,7 @@ func lookupMethod(i *interpreter, typ types.Type, meth *types.Func) *ssa.Functio
 // record frame.  It returns a continuation value indicating where to
 // read the next instruction from.
 func visitInstr(fr *frame, instr ssa.Instruction) continuation {
+	eng.curFrame = fr
 	eng.steps++
 	if eng.steps > eng.MaxSteps {
 		panic(inconclusive{"step budget exceeded (unwinding bound)"})
